@@ -294,7 +294,7 @@ def interpolate_bad_channels(
         weights[bad_channels] = 0
         weights[weights < 0.005] = 0
         weights = weights / gp.sum(weights)
-        imult = gp.where(weights > 0.005)[0]
+        imult = gp.where(weights > 0)[0]  # all the weights kept above: they sum to 1 (convex combination)
         if imult.size == 0:
             data[i, :] = 0
             continue
